@@ -72,6 +72,16 @@ Theorem C08_parse_serialize_parse : forall data sp dp tag cs,
 Proof. exact parse_serialize_parse. Qed.
 Print Assumptions C08_parse_serialize_parse.
 
+(* a received chunk of a class with mandatory fixed fields (DATA, INIT, INIT-ACK, SACK, SHUTDOWN,
+   FORWARD-TSN) whose body is empty is rejected, wherever it stands in the packet's first position
+   and whatever follows -- it is never turned into a chunk with default field values (TSN 0 ...) *)
+Theorem C08_empty_fixed_chunk_rejected : forall sp dp tag ty fl rest,
+  in_u16 sp = true -> in_u16 dp = true -> in_u32 tag = true ->
+  has_fixed_part ty = true -> in_u8 fl = true ->
+  parse_packet (packet_bytes sp dp tag (generic_bytes ty fl [] ++ rest)) = ValueErr.
+Proof. exact empty_fixed_chunk_rejected. Qed.
+Print Assumptions C08_empty_fixed_chunk_rejected.
+
 (* ---------------------------------------------------------------- CRC-32C *)
 Theorem C08_crc_check_value : crc32c [49; 50; 51; 52; 53; 54; 55; 56; 57] = 3808858755.
 Proof. vm_compute. reflexivity. Qed.
